@@ -170,6 +170,12 @@ func (in *c19In) populate(fs filesystem.Filespace) {
 		files := map[string]string{}
 		for i, n := range names {
 			f := fmt.Sprintf("%spart%d%s", dir, i%2, in.ext())
+			switch i {
+			case 2:
+				f = dir + ".dotfile" + in.ext() // any name with the extension is a template file
+			case 3:
+				f = dir + ".dotdir/nested/x" + in.ext()
+			}
 			files[f] += fmt.Sprintf(`{{define "%s"}}%s{{end}}`, n, l[n])
 		}
 		if len(names) == 0 {
@@ -397,7 +403,7 @@ func init() {
 		New:    func() interface{} { return &c19In{} },
 		Run:    c19Run,
 		Shrink: c19Shrink,
-		Rule: "one case = a template set (helpers, 1-2 layouts, 1-3 views, define names A-E overlapping across layers and views, two files per layer, a decoy with another extension) + 1-8 requests Base / Layout / View (also the default layout, missing layouts and views) for the HTML or the text provider; sequential shape: the same sequence against a cached and an uncached provider, every name rendered and compared with the layering rule; concurrent shape: 2-5 tasks run rotations of the sequence on one cached provider under the seeded scheduler with the happens-before probe on the cache maps; " +
+		Rule: "one case = a template set (helpers, 1-2 layouts, 1-3 views, define names A-E overlapping across layers and views, two to four files per layer (also dot-named files and directories), a decoy with another extension) + 1-8 requests Base / Layout / View (also the default layout, missing layouts and views) for the HTML or the text provider; sequential shape: the same sequence against a cached and an uncached provider, every name rendered and compared with the layering rule; concurrent shape: 2-5 tasks run rotations of the sequence on one cached provider under the seeded scheduler with the happens-before probe on the cache maps; " +
 			"non-trivial = sequential case, or a concurrent case with a real scheduling decision; distinct = distinct (input, decision sequence)",
 		Real:        []string{"goathtml/ghprovider (Provider, TemplateLoader)", "goattext/gtprovider", "filesystem/fsloop.WalkFS", "memfs", "std html/template and text/template"},
 		Stub:        []string{"sync.Mutex -> simrt", "scheduler, clock"},
